@@ -222,6 +222,10 @@ func NewWorld(rng *rand.Rand, opt WorldOptions) *World {
 				fd.Args = append(fd.Args, Arg{Name: "filter", Type: "[FilterIn!]"})
 				ensureFilter(s)
 			}
+			if opt.InputArgs && kind == fkStr && rng.Intn(3) == 0 {
+				fd.Args = append(fd.Args, Arg{Name: "data", Type: "JSON"})
+				s.ensure("SCALAR", "JSON")
+			}
 			d.Fields = append(d.Fields, fd)
 			nodeFields[tn] = append(nodeFields[tn], f)
 		}
@@ -356,6 +360,10 @@ func NewWorld(rng *rand.Rand, opt WorldOptions) *World {
 			if opt.InputArgs && kind == fkStr && rng.Intn(2) == 0 {
 				fd.Args = append(fd.Args, Arg{Name: "filter", Type: "[FilterIn!]"})
 				ensureFilter(s)
+			}
+			if opt.InputArgs && kind == fkStr && rng.Intn(3) == 0 {
+				fd.Args = append(fd.Args, Arg{Name: "data", Type: "JSON"})
+				s.ensure("SCALAR", "JSON")
 			}
 			q.Fields = append(q.Fields, fd)
 			w.Store.Roots["Query"][fd.Name] = mkValue(kind, to, fd.Name)
